@@ -224,10 +224,23 @@ class PCtx:
             return Poly.const(_frac_of_bits(t))
         if op == 'in':
             return Poly.atom(('in', t.args[0], t.args[1], t.w))
-        if op == 'fadd':
-            return self.fpoly(t.args[0]) + self.fpoly(t.args[1])
-        if op == 'fsub':
+        if op in ('fadd', 'fsub'):
+            for a in t.args:
+                if _is_rounding_magic(a):
+                    # (x + 2^23) - 2^23 style code relies on rounding: the real-number reading is not valid
+                    raise RoundingTrick()
+            if op == 'fadd':
+                return self.fpoly(t.args[0]) + self.fpoly(t.args[1])
             return self.fpoly(t.args[0]) - self.fpoly(t.args[1])
+        if op == 'concat':
+            from . import fclass
+            r = fclass.sign_idiom(t)
+            if r is not None:
+                kind, x, _ = r
+                if kind == 'fneg':
+                    return -self.fpoly(x)
+                fa = self._fatom('fabs', ('P', _signnorm(self.fpoly(x))))
+                return fa if kind == 'fabs' else -fa
         if op == 'fmul':
             return self.fpoly(t.args[0]) * self.fpoly(t.args[1])
         if op == 'fneg':
@@ -380,6 +393,25 @@ class NonFinite(Exception):
     pass
 
 
+class RoundingTrick(NonFinite):
+    pass
+
+
+def _is_rounding_magic(c):
+    if c.op == 'concat' and len(c.args) == 2 and c.args[0].op == 'const' and c.args[0].w == c.w - 1 and c.w in (32, 64):
+        # copysign(2^23, x): magnitude bits constant, sign bit variable
+        c = tm.const(c.w, c.args[0].args[0])
+    if c.op != 'const':
+        return False
+    try:
+        x = abs(tm.fval(c))
+    except Exception:
+        return False
+    if x != x or x == float('inf'):
+        return False
+    return (c.w == 32 and x >= 2.0 ** 23 and x <= 2.0 ** 25) or (c.w == 64 and x >= 2.0 ** 52 and x <= 2.0 ** 54)
+
+
 # ---------------------------------------------------------------------------------------------
 # axioms as rewrites on normal forms
 
@@ -516,6 +548,14 @@ class DecisionCtx(PCtx):
         if c.op == 'fcmp':
             pred = c.args[0]
             a, b = self.fpoly(c.args[1]), self.fpoly(c.args[2])
+            if a.is_const() and b.is_const():
+                x, y = a.cval(), b.cval()
+                rel = 'lt' if x < y else 'gt' if x > y else 'eq'
+                if pred == 'ord':
+                    return True
+                if pred == 'uno':
+                    return False
+                return rel in _SAT[pred[1:]]
             flip = b.key() < a.key()
             if flip:
                 a, b = b, a
@@ -559,7 +599,53 @@ def _definite(p):
     return True
 
 
-def decision_equal(t1, t2, max_atoms=6, post=None):
+def _feasible(atoms, vals, infos):
+    """comparisons of one expression against several constants must be consistent on the real line"""
+    cons = {}
+    for at, v in zip(atoms, vals):
+        if at[0] != 'pair':
+            continue
+        pa, pb = infos[at]
+        if pb.is_const() and not pa.is_const():
+            cons.setdefault(pa.key(), []).append((v, pb.cval()))
+        elif pa.is_const() and not pb.is_const():
+            cons.setdefault(pb.key(), []).append(({'lt': 'gt', 'gt': 'lt'}.get(v, v), pa.cval()))
+    for k, cs in cons.items():
+        if any(r == 'uno' for r, c in cs):
+            if not all(r == 'uno' for r, c in cs):
+                return False
+            continue
+        lo, lo_strict, hi, hi_strict = None, False, None, False
+        for r, c in cs:
+            if r in ('gt', 'eq'):
+                if lo is None or c > lo or (c == lo and r == 'gt'):
+                    lo, lo_strict = c, (r == 'gt')
+            if r in ('lt', 'eq'):
+                if hi is None or c < hi or (c == hi and r == 'lt'):
+                    hi, hi_strict = c, (r == 'lt')
+        if lo is not None and hi is not None:
+            if lo > hi or (lo == hi and (lo_strict or hi_strict)):
+                return False
+    return True
+
+
+def transparent(p, depth=0):
+    """every atom is an input lane or a known real function (sqrt, inv, fabs, libm) of transparent arguments:
+    different normal forms of transparent polynomials are different functions of the inputs"""
+    if depth > 6:
+        return False
+    for a in p.atoms():
+        k = atom_key(a)
+        if k[0] == 'in':
+            continue
+        if k[0] in ('sqrt', 'inv', 'fabs') or k[0].startswith('fn:'):
+            if all(isinstance(x, tuple) and len(x) == 2 and x[0] == 'P' and transparent(x[1], depth + 1) for x in k[1:]):
+                continue
+        return False
+    return True
+
+
+def decision_equal(t1, t2, max_atoms=6, post=None, nan=True):
     """True: equal under every valuation.  (False, description, poly1, poly2): separated by a single-pair relation.
     None: undecided (too many atoms, no normal form, or a separation that depends on several atoms)."""
     import itertools
@@ -568,9 +654,11 @@ def decision_equal(t1, t2, max_atoms=6, post=None):
     while True:
         need = None
         seps = []
-        doms = [RELS if a[0] == 'pair' else (False, True) for a in atoms]
+        doms = [(RELS if nan else RELS[:3]) if a[0] == 'pair' else (False, True) for a in atoms]
         total = 0
         for vals in itertools.product(*doms):
+            if not _feasible(atoms, vals, infos):
+                continue
             total += 1
             ctx = DecisionCtx(dict(zip(atoms, vals)))
             try:
@@ -583,7 +671,20 @@ def decision_equal(t1, t2, max_atoms=6, post=None):
             except (NonFinite, TooBig):
                 return None
             if a != b:
-                seps.append((vals, a, b))
+                # under an 'eq' relation of a pair (p, q) results that differ by a multiple of p - q are equal
+                d = a - b
+                for at, v in zip(atoms, vals):
+                    if at[0] == 'pair' and v == 'eq' and not d.is_zero():
+                        pa_, pb_ = infos[at]
+                        e = pa_ - pb_
+                        if not e.is_zero():
+                            try:
+                                _, rem = divmod_poly(d, e)
+                                d = rem
+                            except (TooBig, ZeroDivisionError):
+                                pass
+                if not d.is_zero():
+                    seps.append((vals, a, b))
         if need is not None:
             if len(atoms) >= max_atoms:
                 return None
@@ -598,13 +699,12 @@ def decision_equal(t1, t2, max_atoms=6, post=None):
                 continue
             for rel in ('lt', 'eq', 'gt'):
                 mine = [s_ for s_ in seps if s_[0][i] == rel]
-                expected = 1
-                for j, d in enumerate(doms):
-                    if j != i:
-                        expected *= len(d)
+                expected = sum(1 for vals in itertools.product(*doms) if vals[i] == rel and _feasible(atoms, vals, infos))
                 if len(mine) == expected and mine:
                     pa, pb = infos[at]
                     if rel == 'eq' and _definite(pa - pb):
+                        continue
+                    if not all(transparent(x[1] - x[2]) for x in mine) or not transparent(pa - pb):
                         continue
                     return (False, '%s %s %s' % (show_poly(pa, limit=4), {'lt': '<', 'eq': '==', 'gt': '>'}[rel], show_poly(pb, limit=4)), mine[0][1], mine[0][2])
         return None
